@@ -11,7 +11,7 @@ META = {
     "functions": ["srctools:AtomicWriter.__init__", "srctools:AtomicWriter.make_tempfile", "srctools:AtomicWriter.__enter__", "srctools:AtomicWriter.__exit__"],
     "bounds": "old / new contents: symbolic bytes with exact lengths 0..2 per slice (new data in two writes); old file present or absent; 0..2 stale "
               "tmp_N files of other owners; crash point = any FS operation index (symbolic, <= 12); one injected OSError/PermissionError/"
-              "FileExistsError at any FS operation index; body exception before any write; bytes and text mode; two writers to different files in one "
+              "FileExistsError/ValueError (a non-OSError failure) at any FS operation index; body exception before any write; bytes and text mode; two writers to different files in one "
               "directory under every schedule of <= 14 FS-operation steps (symbolic schedule bits)",
     "outside": "a kill in the middle of a single write() system call, fsync/durability ordering of real file systems, more than one fault per run, "
                "more than two writers, Windows rename semantics; BSP.save's use of the writer is covered only in so far as it goes through "
@@ -59,7 +59,7 @@ def h_single(old: bytes, new1: bytes, new2: bytes, has_old: bool, crash: int, fa
     import srctools
     from vf.stubs import wfs
     assume(len(old) == n_old and len(new1) == n1 and len(new2) == n2)
-    assume(-1 <= crash <= 12 and -1 <= fault <= 12 and 0 <= fkind <= 2 and -1 <= body_fail <= 2)
+    assume(-1 <= crash <= 12 and -1 <= fault <= 12 and 0 <= fkind <= 3 and -1 <= body_fail <= 2)
     assume(crash == -1 or fault == -1)
     if fault == -1:
         assume(fkind == 0)
@@ -70,7 +70,10 @@ def h_single(old: bytes, new1: bytes, new2: bytes, has_old: bool, crash: int, fa
     fs.crash_at = None if crash < 0 else crash
     if fault >= 0:
         fs.fault_at = fault
-        fs.fault_exc = [OSError("injected"), PermissionError("injected"), FileExistsError("injected")][fkind]
+        # kind 3: an error that is not an OSError (what os.replace raises for a name with an embedded NUL); the statement says
+        # "an error is raised", and a failure the writer handles must not leave its temporary file either way
+        fs.fault_exc = [OSError("injected"), PermissionError("injected"), FileExistsError("injected"),
+                        ValueError("injected: embedded null byte")][fkind]
     new = new1 + new2
     outcome = "ok"
     try:
@@ -88,7 +91,7 @@ def h_single(old: bytes, new1: bytes, new2: bytes, has_old: bool, crash: int, fa
             outcome = "crash"
         except BodyError:
             outcome = "body"
-        except OSError:
+        except (OSError, ValueError):
             outcome = "oserror"
     finally:
         _restore()
